@@ -732,13 +732,49 @@ def chk_e2e_depth2_apex1(m1: int, m2: int, ax: int, ay: int) -> bool:
     return _e2e(2, _acc12(m1, m2), Pos(1, ax, ay))
 
 
-def chk_e2e_depth2_apex2(m1: int, m2: int, ax: int, ay: int) -> bool:
+def chk_e2e_depth2_apex2_q0(m1: int, m2: int, ax: int, ay: int) -> bool:
     """
-    Depth 2, any sub-pyramid apex at level 2 (= a single leaf), free filter masks.
+    Depth 2, sub-pyramid apex = any level-2 tile under level-1 tile 0, free filter masks.
 
     pre: 0 <= m1 < 16
     pre: 0 <= m2 < 2**16
-    pre: 0 <= ax < 4 and 0 <= ay < 4
+    pre: 0 <= ax < 2 and 0 <= ay < 2
+    post: _
+    """
+    return _e2e(2, _acc12(m1, m2), Pos(2, ax, ay))
+
+
+def chk_e2e_depth2_apex2_q1(m1: int, m2: int, ax: int, ay: int) -> bool:
+    """
+    Depth 2, sub-pyramid apex = any level-2 tile under level-1 tile 1, free filter masks.
+
+    pre: 0 <= m1 < 16
+    pre: 0 <= m2 < 2**16
+    pre: 2 <= ax < 4 and 0 <= ay < 2
+    post: _
+    """
+    return _e2e(2, _acc12(m1, m2), Pos(2, ax, ay))
+
+
+def chk_e2e_depth2_apex2_q2(m1: int, m2: int, ax: int, ay: int) -> bool:
+    """
+    Depth 2, sub-pyramid apex = any level-2 tile under level-1 tile 2, free filter masks.
+
+    pre: 0 <= m1 < 16
+    pre: 0 <= m2 < 2**16
+    pre: 0 <= ax < 2 and 2 <= ay < 4
+    post: _
+    """
+    return _e2e(2, _acc12(m1, m2), Pos(2, ax, ay))
+
+
+def chk_e2e_depth2_apex2_q3(m1: int, m2: int, ax: int, ay: int) -> bool:
+    """
+    Depth 2, sub-pyramid apex = any level-2 tile under level-1 tile 3, free filter masks.
+
+    pre: 0 <= m1 < 16
+    pre: 0 <= m2 < 2**16
+    pre: 2 <= ax < 4 and 2 <= ay < 4
     post: _
     """
     return _e2e(2, _acc12(m1, m2), Pos(2, ax, ay))
